@@ -634,6 +634,7 @@ func (g *ProgGen) Program() (map[string]*Template, string) {
 		if r.Intn(3) == 0 {
 			lay = append(lay, &NExtends{Tpl: &EStr{S: g.Prefix + "base0"}, ID: g.id("X")})
 		}
+		g.used["b0"], g.used["b1"] = true, true // the layout's own blocks
 		for _, bn := range []string{"b0", "b1"} {
 			lay = append(lay, g.text(), g.namedBlock(bn, func() []Node { return g.Nodes(1, 1+r.Intn(2), []string{g.Prefix + "part2"}, true) }))
 		}
@@ -644,6 +645,12 @@ func (g *ProgGen) Program() (map[string]*Template, string) {
 	levels := r.Intn(4) // number of ancestors
 	{
 		g.resetTemplate()
+		if g.used == nil {
+			g.used = map[string]bool{}
+		}
+		for _, bn := range []string{"b0", "b1", "b2", "b3"} {
+			g.used[bn] = true // the layout's own blocks: no random block may take one of these names first
+		}
 		var body []Node
 		body = append(body, g.text())
 		for _, bn := range []string{"b0", "b1", "b2"} {
